@@ -1,3 +1,4 @@
--- This module serves as the root of the `RelicVerif` library.
--- Import modules here that should be built as part of the library.
-import RelicVerif.Basic
+-- Root of the `RelicVerif` library: every property file.
+import RelicVerif.Props.C01
+import RelicVerif.Props.C15
+import RelicVerif.Props.C19
